@@ -88,6 +88,8 @@ structure Validator where
   totalBip : Int
   accum : Int
   absent : List Bool
+  tmAddr : Nat := 0
+  toDrop : Bool := false
   deriving Repr, BEq, DecidableEq
 
 structure Multisig where
